@@ -55,6 +55,7 @@ pub fn run(a: &Args) -> Report {
         }
         let cfg = GenCfg {
             containers: rng.chance(1, 3),
+            nested_containers: rng.chance(1, 3),
             subsume: rng.chance(1, 3),
             n_cmds: (10, 28),
             ..Default::default()
